@@ -440,8 +440,29 @@ def r_samples_pixel(rule, root=None):
         ("results stored at the row's offset plus the column, same nesting", nest, "self.image[(o+{i})]=out[index].into();"),
     ]
     fills = []
+    row_copy = False
     for what, loops, f in need:
         hits = A.stmts_in_loops(body, loops, f)
+        if not hits and what.startswith("results stored"):
+            # the same copy written one row at a time: `for (i, v) in out[index..index + tile_size].iter().enumerate()
+            # { self.image[o + i] = (*v).into() }` with `index += tile_size` per row
+            for s_ in A.all_stmts(body):
+                b_ = A.enclosing_binders(body, s_) or []
+                e_ = A.strip(A.stmt_expr(s_) or {})
+                if len(b_) >= 2 and e_.get("k") == "Assign" and A.iter_source(b_[-2][1]) == "0..tile_size":
+                    node_ = b_[-1][2]
+                    pat_ = node_.get("pat") if node_.get("k") == "For" else None
+                    els_ = pat_.get("elems") if pat_ and pat_.get("k") == "PTuple" else None
+                    src_ = b_[-1][1]
+                    base_ = A.iter_source(src_[: -len(".enumerate()")]) if src_.endswith(".enumerate()") else ""
+                    for l_ in A.find(b_[-2][2].get("body") or {}, "Let"):
+                        if A.binding_name(l_["pat"]) == base_ and l_.get("init") is not None:
+                            base_ = A.iter_source(str(txt(l_["init"])))
+                    if els_ and len(els_) == 2 and base_ in ("out[index..(index+tile_size)]",):
+                        i_, v_ = A.binding_name(els_[0]), A.binding_name(els_[1])
+                        if str(txt(e_["left"])) == "self.image[(o+%s)]" % i_ and str(txt(e_["right"])) in ("(*%s).into()" % v_, "%s.into()" % v_) and A.stmts_in_loops(body, nest[:1], "(index+=tile_size);"):
+                            hits = [(s_, b_[-2:])]
+                            row_copy = True
         if hits:
             rule.ok("pixel samples: %s" % what, file=PIX, line=fn["ln"])
             fills.append(hits[0])
@@ -449,7 +470,7 @@ def r_samples_pixel(rule, root=None):
             rule.bad("samples|pixel|%s" % what[:24], "per-pixel evaluation: %s (`%s` not found under rows j / columns i of 0..tile_size)" % (what, f[:60]), A.where(fn))
     # the flat index advances once per pixel in the loop that fills and in the loop that stores
     bumps = [s_ for s_, b in A.stmts_in_loops(body, nest, "(index+=1);") if not (A.enclosing_conds(body, s_) or [])]
-    inner_loops = {id(b[-1][2]) for _s, b in fills if len(b) == 2}
+    inner_loops = {id(b[-1][2]) for _s, b in fills if len(b) == 2 and not (row_copy and A.iter_source(b[-1][1]) != "0..tile_size")}
     bump_loops = {id(A.enclosing_binders(body, s_)[-1][2]) for s_ in bumps}
     if fills and inner_loops <= bump_loops:
         rule.ok("pixel samples: rows outer, columns inner; the flat index advances once per pixel in both loops")
